@@ -685,7 +685,7 @@ def check_no_parent_mutation(rep: Report, ctx: Any, rid: str) -> None:
     """property objects inherited from a referenced parent are shared: never mutated while composing a child (C15 / C02)"""
     ix = ctx.py
     pp = ix.func("model_property._process_properties")
-    funcs = _unique(region(ix, pp))
+    funcs = _unique(_with_record_methods(ix, region(ix, pp)))
     found = _find_allof_loop(pp, funcs)
     decision = _find_member_decision(found[1], found[2]) if found else None
     at = where(found[0], decision[0]) if found and decision else where(pp, pp.node)  # where the rule looks when there is nothing to report
@@ -1225,12 +1225,70 @@ def _own_nodes(fn: ast.AST) -> Iterator[ast.AST]:
             stack.extend(ast.iter_child_nodes(n))
 
 
+def _var_of(e: ast.AST | None) -> str | None:
+    """the variable an expression names: a name, or a field of the object a name holds (`state.by_name`: that object's mapping)"""
+    if isinstance(e, ast.Name):
+        return e.id
+    if isinstance(e, ast.Attribute) and isinstance(e.value, ast.Name):
+        return f"{e.value.id}.{e.attr}"
+    return None
+
+
+def _store_targets(n: ast.AST, own_locals: set[str]) -> set[str]:
+    """the mappings statement n stores into by `<mapping>[key] = value`, those that are not locals (or fields of locals) of the storing
+    function (own_locals), i.e. that outlive the call"""
+    if not isinstance(n, (ast.Assign, ast.AnnAssign, ast.AugAssign)):
+        return set()
+    tg = n.targets if isinstance(n, ast.Assign) else [n.target]
+    out = set()
+    for t in tg:
+        v = _var_of(t.value) if isinstance(t, ast.Subscript) else None
+        if v is not None and v.split(".", 1)[0] not in own_locals:
+            out.add(v)
+    return out
+
+
 def _is_store(n: ast.AST, own_locals: set[str]) -> bool:
     """`<mapping>[key] = value` into a mapping that is not a local of the storing function (own_locals), i.e. one that outlives the call"""
-    if not isinstance(n, (ast.Assign, ast.AnnAssign, ast.AugAssign)):
+    return bool(_store_targets(n, own_locals))
+
+
+def _receiver_classes(g: Any, name: str) -> set[str]:
+    """the classes (by name) variable `name` of function g is an instance of, as far as g says: the receiver of a method, a parameter
+    by its annotation, a local by the constructor it is bound from"""
+    out: set[str] = set()
+    a = g.node.args
+    pos = [*a.posonlyargs, *a.args]
+    if g.cls is not None and g.kind not in ("staticmethod", "classmethod") and pos and pos[0].arg == name:
+        out.add(g.cls.name)
+    for p_ in [*pos, *a.kwonlyargs]:
+        if p_.arg == name and p_.annotation is not None:
+            out.add(norm(p_.annotation).strip("'\"").rsplit(".", 1)[-1])
+    for v in Locals(g.node).values_of(name):
+        if isinstance(v, ast.Call):
+            out.add(call_name(v).rsplit(".", 1)[-1])
+    return out
+
+
+def _calls_fn(g: Any, c: ast.Call, h: Any) -> bool:
+    """call c, made in function g, calls h: a function by its name; a method by its name on an object of its class"""
+    if call_name(c).rsplit(".", 1)[-1] != h.name:
         return False
-    tg = n.targets if isinstance(n, ast.Assign) else [n.target]
-    return any(isinstance(t, ast.Subscript) and isinstance(t.value, ast.Name) and t.value.id not in own_locals for t in tg)
+    if h.cls is None or h.kind in ("staticmethod", "classmethod"):
+        return True
+    f = c.func
+    return isinstance(f, ast.Attribute) and isinstance(f.value, ast.Name) and h.cls.name in _receiver_classes(g, f.value.id)
+
+
+def _callees(g: Any, c: ast.Call, funcs: Iterable[Any]) -> list[Any]:
+    return [h for h in funcs if _calls_fn(g, c, h)]
+
+
+def _plain_call(h: Any, c: ast.Call) -> ast.Call:
+    """the call of a method written as the call of the function it is: the receiver is the first argument"""
+    if h.cls is not None and h.kind not in ("staticmethod", "classmethod") and isinstance(c.func, ast.Attribute):
+        return ast.Call(func=ast.Name(id=h.name, ctx=ast.Load()), args=[c.func.value, *c.args], keywords=c.keywords)
+    return c
 
 
 def _stores_outward(g: Any) -> bool:
@@ -1248,9 +1306,6 @@ class Aliases:
     def __init__(self, funcs: list[Any]) -> None:
         self.funcs = list({f.qual: f for f in funcs}.values())
         self.up: dict[tuple[str, str], tuple[str, str]] = {}
-        by_name: dict[str, list[Any]] = {}
-        for f in self.funcs:
-            by_name.setdefault(f.name, []).append(f)
         scope = {f.qual: self._bound_in(f) for f in self.funcs}
         for f in self.funcs:
             own = list(_own_nodes(f.node))
@@ -1268,22 +1323,33 @@ class Aliases:
             for n in own:
                 # arguments
                 if isinstance(n, ast.Call):
-                    for h in by_name.get(call_name(n).rsplit(".", 1)[-1], []):
-                        bound_args = _bind_args(h.node, n)
+                    for h in _callees(f, n, self.funcs):
+                        call = _plain_call(h, n)
+                        bound_args = _bind_args(h.node, call)
                         if bound_args is None:
                             pos = [a.arg for a in [*h.node.args.posonlyargs, *h.node.args.args]]
-                            bound_args = {**{pos[i]: a for i, a in enumerate(n.args) if i < len(pos) and not isinstance(a, ast.Starred)},
-                                          **{kw.arg: kw.value for kw in n.keywords if kw.arg}}
+                            bound_args = {**{pos[i]: a for i, a in enumerate(call.args) if i < len(pos) and not isinstance(a, ast.Starred)},
+                                          **{kw.arg: kw.value for kw in call.keywords if kw.arg}}
                         for p_, a in bound_args.items():
                             if isinstance(a, ast.Name):
                                 self._union((f.qual, a.id), (h.qual, p_))
                 # results
                 if isinstance(n, (ast.Assign, ast.AnnAssign)) and isinstance(n.value, ast.Call):
-                    for h in by_name.get(call_name(n.value).rsplit(".", 1)[-1], []):
+                    for h in _callees(f, n.value, self.funcs):
                         for r in _own_nodes(h.node):
                             if isinstance(r, ast.Return) and r.value is not None:
                                 for t in (n.targets if isinstance(n, ast.Assign) else [n.target]):
                                     self._unify(f.qual, t, h.qual, r.value)
+        # a field of one object is one variable, whatever the object is called where it is used
+        fields: dict[tuple[tuple[str, str], str], list[tuple[str, str]]] = {}
+        for f in self.funcs:
+            for n in _own_nodes(f.node):
+                if isinstance(n, ast.Attribute) and isinstance(n.value, ast.Name):
+                    self.up.setdefault((f.qual, n.value.id), (f.qual, n.value.id))
+                    fields.setdefault((self._find((f.qual, n.value.id)), n.attr), []).append((f.qual, f"{n.value.id}.{n.attr}"))
+        for same in fields.values():
+            for x in same[1:]:
+                self._union(same[0], x)
 
     @staticmethod
     def _bound_in(f: Any) -> set[str]:
@@ -1467,7 +1533,7 @@ def _promotions(pp: Any, reg: list[Any], f: Any, req_sets: set[str], cfgs: dict[
             continue
         if depth > 0:
             for h in reg:
-                if h.name == last and h.qual not in (f.qual, pp.qual):
+                if h.name == last and h.qual not in (f.qual, pp.qual) and (not isinstance(e, ast.Call) or _calls_fn(f, e, h)):
                     inner = [g for x, g in _promotions(pp, reg, h, req_sets, cfgs, depth - 1) if _value_is_used(h, cfg_of(h, cfgs), x)]
                     if inner:
                         out.append((e, any(inner) or _only_when_required(f, cfg, e, names)))
@@ -1573,7 +1639,7 @@ def _required_and_members(rep: Report, ctx: Any, cfgs: dict[str, CFG]) -> None:
                   where(g, node), lhs=norm(value), rhs=" or ".join(sorted(want)))
 
     pp = ix.func("model_property._process_properties")
-    reg = region(ix, pp)
+    reg = _with_record_methods(ix, region(ix, pp))
     nested = [h for h in ix.all_functions if h.parent is not None and _encloses(pp, h)]  # part of the region whatever they are called
     funcs = _unique(reg)
     _aliases(pp, reg + nested)
@@ -1614,10 +1680,10 @@ def _required_and_members(rep: Report, ctx: Any, cfgs: dict[str, CFG]) -> None:
               rhs=f"{norm(build_loop.iter)}.extend(<member>.properties...) on every inline path that has properties")
     # the required set reaches every property of the composed model: either each insertion consults it, or the final partition
     # promotes every property named in it (on a copy) before splitting into required / optional
-    storing = {g.name for g in funcs + nested if g is not pp and _stores_outward(g)}
-    storing |= {g.name for g in funcs if g is not pp and any(call_name(c).rsplit(".", 1)[-1] in storing for c in calls_in(g.node))}
+    storing = [g for g in funcs + nested if g is not pp and _stores_outward(g)]
+    storing += [g for g in funcs if g is not pp and g not in storing and any(_calls_fn(g, c, h) for c in calls_in(g.node) for h in storing)]
     adds: list[tuple[Any, ast.AST]] = [(g, n) for g in _unique([pp, *[m.f for m in loops], builder]) for n in _own_nodes(g.node) if
-                                       (isinstance(n, ast.Call) and call_name(n).rsplit(".", 1)[-1] in storing - {g.name}) or _is_store(n, set())]
+                                       (isinstance(n, ast.Call) and any(h is not g and _calls_fn(g, n, h) for h in storing)) or _is_store(n, set())]
     rep.require(adds, "the place where _process_properties (or a function it calls) stores a property of the composed model")
     rep.floor("property_insertions", len(adds), 1)
 
@@ -1816,7 +1882,7 @@ def _imports_of_every_property(rep: Report, ctx: Any, cfgs: dict[str, CFG]) -> N
     ix = ctx.py
     pp = ix.func("model_property._process_properties")
     nested = [h for h in ix.all_functions if h.parent is not None and _encloses(pp, h)]
-    funcs = list({f.qual: f for f in [*region(ix, pp), *nested]}.values())
+    funcs = list({f.qual: f for f in [*_with_record_methods(ix, region(ix, pp)), *nested]}.values())
     # roles: the result (the call that hands back the two property lists and the two import sets), the mapping every property of the
     # composed model is stored in, the two result lists - each as _process_properties calls them
     fields = list(ix.cls("_PropertyData").fields)
@@ -1834,8 +1900,7 @@ def _imports_of_every_property(rep: Report, ctx: Any, cfgs: dict[str, CFG]) -> N
         mine = local_names(g.node) if g.qual != pp.qual else set()
         for n in _own_nodes(g.node):
             if _is_store(n, mine):
-                tg = n.targets if isinstance(n, ast.Assign) else [n.target]  # type: ignore[attr-defined]
-                storage |= _in_caller(pp, g, {t.value.id for t in tg if isinstance(t, ast.Subscript) and isinstance(t.value, ast.Name)})
+                storage |= _in_caller(pp, g, _store_targets(n, mine))
     rep.require(storage, "the mapping the properties of the composed model are collected in")
 
     def seen_from_pp(g: Any, sources: set[str]) -> set[str]:
@@ -1845,8 +1910,8 @@ def _imports_of_every_property(rep: Report, ctx: Any, cfgs: dict[str, CFG]) -> N
         out = set(sources)
         for h in funcs:
             for c in calls_in(h.node):
-                if call_name(c).rsplit(".", 1)[-1] == g.name:
-                    bound = _bind_args(g.node, c) or {}
+                if _calls_fn(h, c, g):
+                    bound = _bind_args(g.node, _plain_call(g, c)) or {}
                     for p_, a in bound.items():
                         if p_ in sources:
                             out |= seen_from_pp(h, _unfiltered_sources(a, Locals(h.node))) if h.qual != g.qual else set()
@@ -1891,9 +1956,8 @@ def _python_names_compared(rep: Report, ctx: Any, cfgs: dict[str, CFG]) -> None:
     ix = ctx.py
     pp = ix.func("model_property._process_properties")
     nested = [h for h in ix.all_functions if h.parent is not None and _encloses(pp, h)]
-    funcs = list({f.qual: f for f in [*region(ix, pp), *nested]}.values())
+    funcs = list({f.qual: f for f in [*_with_record_methods(ix, region(ix, pp)), *nested]}.values())
     _aliases(pp, funcs)
-    by_name: dict[str, Any] = {f.name: f for f in funcs}
     # the mapping (as _process_properties calls it) and the statements that store into it
     stores: list[tuple[Any, ast.stmt]] = []
     storage: set[str] = set()
@@ -1901,20 +1965,18 @@ def _python_names_compared(rep: Report, ctx: Any, cfgs: dict[str, CFG]) -> None:
         mine = local_names(g.node) if g.qual != pp.qual else set()
         for n in _own_nodes(g.node):
             if _is_store(n, mine):
-                tg = n.targets if isinstance(n, ast.Assign) else [n.target]  # type: ignore[attr-defined]
-                storage |= _in_caller(pp, g, {t.value.id for t in tg if isinstance(t, ast.Subscript) and isinstance(t.value, ast.Name)})
+                storage |= _in_caller(pp, g, _store_targets(n, mine))
                 stores.append((g, n))  # type: ignore[arg-type]
     rep.require(stores and storage, "the mapping the properties of the composed model are collected in")
 
-    def compares_names(nodes: Iterable[ast.AST], depth: int = 1) -> bool:
-        """a comparison of python names is made by these nodes, or by a function of the region they call"""
+    def compares_names(g: Any, nodes: Iterable[ast.AST], depth: int = 1) -> bool:
+        """a comparison of python names is made by these nodes (of function g), or by a function of the region they call"""
         for n in nodes:
             for x in ast.walk(n):
                 if isinstance(x, ast.Compare) and any(isinstance(a, ast.Attribute) and a.attr == "python_name" for a in ast.walk(x)):
                     return True
                 if isinstance(x, ast.Call) and depth > 0:
-                    h = by_name.get(call_name(x).rsplit(".", 1)[-1])
-                    if h is not None and compares_names([h.node], depth - 1):
+                    if any(compares_names(h, [h.node], depth - 1) for h in _callees(g, x, funcs)):
                         return True
         return False
 
@@ -1925,16 +1987,15 @@ def _python_names_compared(rep: Report, ctx: Any, cfgs: dict[str, CFG]) -> None:
         lc = Locals(g.node)
         mapping = _seen_as(pp, g, storage)
         for n in _own_nodes(g.node):
-            if isinstance(n, (ast.For, ast.AsyncFor)) and _unfiltered_sources(n.iter, lc) & mapping and compares_names(n.body):
+            if isinstance(n, (ast.For, ast.AsyncFor)) and _unfiltered_sources(n.iter, lc) & mapping and compares_names(g, n.body):
                 out.append(n)
             elif isinstance(n, (ast.ListComp, ast.SetComp, ast.GeneratorExp, ast.DictComp)) and \
                     any(_unfiltered_sources(c.iter, lc) & mapping for c in n.generators):
                 st = stmt_of(g.node, n)
-                if st is not None and compares_names([n] + [x for x in walk_own(st) if isinstance(x, ast.Compare) and any(y is n for y in ast.walk(x))]):
+                if st is not None and compares_names(g, [n] + [x for x in walk_own(st) if isinstance(x, ast.Compare) and any(y is n for y in ast.walk(x))]):
                     out.append(st)
             elif isinstance(n, ast.Call) and depth > 0:
-                h = by_name.get(call_name(n).rsplit(".", 1)[-1])
-                if h is not None and h.qual != g.qual and checks(h, depth - 1):
+                if any(h.qual != g.qual and checks(h, depth - 1) for h in _callees(g, n, funcs)):
                     st = stmt_of(g.node, n)
                     if st is not None:
                         out.append(st)
@@ -1946,23 +2007,21 @@ def _python_names_compared(rep: Report, ctx: Any, cfgs: dict[str, CFG]) -> None:
         if any(c is not at and cfg_of(g, cfgs).is_dominated_by(at, lambda n, c=c: n is c) for c in cs):
             return []
         calls = [(h, stmt_of(h.node, c)) for h in funcs if h.qual != g.qual for c in _own_nodes(h.node)
-                 if isinstance(c, ast.Call) and call_name(c).rsplit(".", 1)[-1] == g.name]
+                 if isinstance(c, ast.Call) and _calls_fn(h, c, g)]
         if depth == 0 or not calls or g.qual == pp.qual:
             return [(g, at)]
         return [bad for h, st in calls if st is not None for bad in unchecked(h, st, depth - 1)] if not cs else [(g, at)]
 
-    n_checked = 0
     for g, st in stores:
         tg = st.targets if isinstance(st, ast.Assign) else [st.target]  # type: ignore[attr-defined]
         key = next((t.slice for t in tg if isinstance(t, ast.Subscript)), None)
         bad = unchecked(g, st)
-        n_checked += 0 if bad else 1
         rep.check(not bad, "R15.9", f"{g.name}::python-name-compared-before-store[{anon(key, local_names(g.node)) if key is not None else ''}]",
                   "a property is stored in the composed model on a path on which it has not been compared by python name with the properties "
                   "collected so far: a redefined (merged) or inherited property may take the python name of another member's property, which "
                   "then is neither accepted nor emitted by the composed class", where(*bad[0]) if bad else where(g, st),
                   lhs=[f"{h.name}: {norm(x)[:60]}" for h, x in bad], rhs="dominated by a comparison with every collected property's python_name")
-    rep.floor("stores_after_python_name_comparison", n_checked, 1)
+    rep.floor("stores_after_python_name_comparison", len(stores), 1)  # the stores that were judged (one that fails is a finding, not a missing anchor)
 
 
 # ======================================================================================================================
